@@ -1,8 +1,8 @@
 CONSTANTS
-  Mode = "probe"
-  MaxCands = 3
-  NFill = 3
-  Layouts = {"one", "two-first", "two-second"}
+  Mode = "scripts"
+  MaxCands = 1
+  NFill = 1
+  Layouts = {"one"}
   MaxAttempts = 3
   RetryRaw = FALSE
 INIT Init
